@@ -9,7 +9,7 @@ cp -r /repo/optuna "$D/optuna"
 ( cd "$D" && patch -p1 -s < "$PATCH" ) || { echo "patch does not apply"; exit 4; }
 cd /verif
 set +e
-VERIF_REPO="$D" ./check "$ID" "$TIER"
+VERIF_EVIDENCE_DIR="$D/evidence" VERIF_REPO="$D" ./check "$ID" "$TIER"
 RC=$?
 echo "exit=$RC"
 exit $RC
